@@ -30,12 +30,19 @@ PKG[C39]=libraries/doltcore/remotesrv; TESTS[C39]="./libraries/doltcore/remotesr
 PKG[C40]=libraries/doltcore/sqle/binlogreplication; TESTS[C40]="./libraries/doltcore/sqle/kvexec/"
 PKG[C42]=store/blobstore; TESTS[C42]="./store/chunks/"
 PKG[C47]=libraries/doltcore/sqle; TESTS[C47]="./libraries/doltcore/sqle/dsess/"
+PKG[C02]=store/nbs; TESTS[C02]="./store/chunks/"
+PKG[C08-1]=libraries/doltcore/doltdb; TESTS[C08-1]="./libraries/doltcore/doltdb/gcctx/"
+PKG[C08-2]=store/types; TESTS[C08-2]="./store/types/"
+PKG[C17-1]=libraries/doltcore/merge; TESTS[C17-1]="./store/prolly/tree/"
+PKG[C17-2]=store/prolly/tree; TESTS[C17-2]="./store/prolly/tree/"
+PKG[C26]=libraries/doltcore/sqle/kvexec; TESTS[C26]="./libraries/doltcore/sqle/kvexec/"
+PKG[C34-1]=libraries/doltcore/sqle/integration_test; TESTS[C34-1]="./libraries/doltcore/env/actions/"
+PKG[C34-2]=libraries/doltcore/sqle/enginetest; TESTS[C34-2]="./libraries/doltcore/env/actions/"
 mode=$1; shift
 for s in "$@"; do
   p=${s%-*}
   if [ "$mode" = test ]; then
     lib/seedtest.sh $p seeded/$s/patch.diff > work/seedlogs/test_$s.log 2>&1
-    mkdir -p work/seedtest/$s; mv work/seedtest/*.json work/seedtest/$s/ 2>/dev/null
   else
     k=$s; [ -z "${PKG[$k]:-}" ] && k=$p
     lib/seedconfirm.sh seeded/$s ${PKG[$k]} 'TestSeed|TestC[0-9]+Seed|TestC44|TestDemoC|TestC[0-9]+[A-Z]' ${TESTS[$k]} > work/seedlogs/confirm_$s.log 2>&1
